@@ -5,12 +5,14 @@ use crate::engine::{Limits, RunResult, Scenario};
 use crate::job::{Exec, Executor, Job, JobResult, JobSpec, Violation};
 use crate::oracles::Finding;
 
+pub mod c07;
 pub mod c09;
 
 /// build the prepared job for a spec (runs compile + calibration); None = nothing to run
 /// (a violation or a note has been recorded in `out`)
 pub fn make(spec: &JobSpec, ex: &mut Executor, out: &mut JobResult) -> Option<Box<dyn Job>> {
     match spec.check.as_str() {
+        "C07" => c07::make(spec, ex, out),
         "C09" => c09::make(spec, ex, out),
         other => {
             out.notes.push(format!("unknown check {other}"));
